@@ -18,6 +18,7 @@ import (
 	"verif/harness/evid"
 	"verif/harness/netsim"
 	"verif/harness/pbt"
+	"verif/harness/ref"
 	"verif/harness/rig"
 )
 
@@ -32,6 +33,8 @@ type C13Case struct {
 	Partial  int      `json:"partial"`   // bytes of an inbound message delivered right before the cause (0: none, -1: a whole message)
 	Parked   int      `json:"parked"`    // senders blocked on a stalled peer when the cause strikes
 	ParkKind string   `json:"park_kind"` // "send": an application Send; "resend": the inbound goroutine serving a ResendRequest (SendBatch)
+	StopAt   int      `json:"stop_at"`   // cause handler-stop with a burst: the application stops the handler from inside its own incoming handler, on the k-th message of the burst (the rest is still buffered in the reader)
+	Burst    int      `json:"burst"`     // further whole application messages that arrive in one piece right before the cause (buffered in the connection's reader when it strikes)
 	DeltaNs  int64    `json:"delta_ns"`  // virtual time between the in-flight traffic and the cause
 	Deadline int64    `json:"deadline_ms"`
 }
@@ -96,8 +99,34 @@ func genC13(t *rapid.T) *C13Case {
 	if c.Cause == "bad-inbound" && c.Partial > 0 {
 		c.Partial = -1 // the offending message must arrive as a message of its own
 	}
+	if hasLogon(c.Prefix) && c.Parked == 0 && c.Partial <= 0 && rapid.IntRange(0, 3).Draw(t, "burstInFlight") == 0 {
+		c.Burst = rapid.SampledFrom([]int{2, 5, 12, 50, 300}).Draw(t, "burst")
+		if c.Cause == "handler-stop" {
+			c.StopAt = rapid.IntRange(1, min(c.Burst, 5)).Draw(t, "stopAt")
+		}
+	}
 	c.DeltaNs = rapid.SampledFrom([]int64{0, 0, 1, 1000, 1e6}).Draw(t, "delta")
 	return c
+}
+
+// stopInBurst lets the application stop its handler from inside its own incoming
+// handler, on the StopAt-th message of the burst.
+func stopInBurst(c *C13Case, h interface {
+	HandleIncoming(string, simplefixgo.IncomingHandlerFunc) int64
+}, stop func()) {
+	if c.StopAt <= 0 {
+		return
+	}
+	n := 0
+	h.HandleIncoming("D", func(b []byte) bool {
+		if id, _ := ref.Lookup(b, "11"); strings.HasPrefix(id, "burst") {
+			n++
+			if n == c.StopAt {
+				stop()
+			}
+		}
+		return true
+	})
 }
 
 func hasLogon(prefix []string) bool {
@@ -151,6 +180,7 @@ func checkC13(c *C13Case, rec *evid.Rec) (vs []pbt.Violation) {
 					panic(err)
 				}
 				sess, hStop = s, h.Stop
+				stopInBurst(c, h, h.Stop)
 			})
 			conn = netsim.NewConn("c")
 			ar.L.Connect(conn)
@@ -169,6 +199,7 @@ func checkC13(c *C13Case, rec *evid.Rec) (vs []pbt.Violation) {
 				panic(err)
 			}
 			sess, hStop = s, ir.H.Stop
+			stopInBurst(c, ir.H, ir.H.Stop)
 			synctest.Wait()
 		}
 		inSeq := 1
@@ -243,6 +274,13 @@ func checkC13(c *C13Case, rec *evid.Rec) (vs []pbt.Violation) {
 			}
 			conn.Feed(m)
 		}
+		if c.Burst > 0 {
+			var chunk []byte
+			for k := 0; k < c.Burst; k++ {
+				chunk = append(chunk, (&rig.InMsg{Type: "D", Seq: next(), Fields: []rig.Tok{rig.F("11", fmt.Sprint("burst", k))}}).Bytes()...)
+			}
+			conn.Feed(chunk)
+		}
 		if c.DeltaNs > 0 {
 			time.Sleep(time.Duration(c.DeltaNs))
 		}
@@ -269,7 +307,9 @@ func checkC13(c *C13Case, rec *evid.Rec) (vs []pbt.Violation) {
 			}
 			conn.ExpireWrites() // the write deadline passes
 		case "handler-stop":
-			hStop()
+			if c.StopAt == 0 {
+				hStop()
+			} // else: the application's own handler stops it in mid-burst
 		case "acceptor-close":
 			ar.A.Close()
 		case "initiator-close":
@@ -353,7 +393,7 @@ func checkC13(c *C13Case, rec *evid.Rec) (vs []pbt.Violation) {
 		return []pbt.Violation{pbt.V("harness", "%s", trouble)}
 	}
 	key := func(what string) string { return what + ":" + c.Role + ":" + c.Cause }
-	desc := fmt.Sprintf("%s, cause %s, buf %d, N %d, prefix %v, partial %d, parked %d (%s)", c.Role, c.Cause, c.Buf, c.N, c.Prefix, c.Partial, c.Parked, c.ParkKind)
+	desc := fmt.Sprintf("%s, cause %s, buf %d, N %d, prefix %v, partial %d, burst %d, parked %d (%s)", c.Role, c.Cause, c.Buf, c.N, c.Prefix, c.Partial, c.Burst, c.Parked, c.ParkKind)
 	if !o.connClosed {
 		vs = append(vs, pbt.V(key("socket-not-closed"), "%s: the connection was not closed within the settling time\n%s", desc, o.stacks))
 	}
@@ -392,6 +432,12 @@ func checkC13(c *C13Case, rec *evid.Rec) (vs []pbt.Violation) {
 	}
 	if c.Partial > 0 {
 		rec.Hist("inflight:partial-inbound-message")
+	}
+	if c.Burst > 0 {
+		rec.Hist("inflight:burst-buffered-in-the-reader")
+	}
+	if c.StopAt > 0 {
+		rec.Hist("handler-stopped-from-inside-its-own-handler")
 	}
 	if c.Parked > 0 {
 		rec.Hist("inflight:parked-" + c.ParkKind)
